@@ -404,6 +404,18 @@ impl MqttState {
                 "PubRec Pkid = {:?}, reason: {:?}",
                 pubrec.pkid, pubrec.reason
             );
+            // the broker rejected the publish: the QoS2 exchange ends here and the pkid is free
+            self.inflight -= 1;
+            if let Some(publish) = self.check_collision(pubrec.pkid) {
+                self.outgoing_pub[publish.pkid as usize] = Some(publish.clone());
+                self.inflight += 1;
+
+                let event = Event::Outgoing(Outgoing::Publish(publish.pkid));
+                self.events.push_back(event);
+                self.collision_ping_count = 0;
+
+                return Ok(Some(Packet::Publish(publish)));
+            }
             return Ok(None);
         }
 
